@@ -320,9 +320,11 @@ class Engine(HeapMixin, ExprMixin, AccessMixin, CallMixin, StmtMixin, BytesMixin
         self.check_frame(s1, entry, modkeys, 'frame[%s]' % name, fnode)
         if not spec.allocates and s1.alloc is not entry['$alloc']:
           self.oblige(s1, 'no-alloc[%s]' % name, s1.alloc == entry['$alloc'], fnode, 'the function allocates nothing (allocates=False)')
-        elif spec.allocates and spec.allocates != 'any' and s1.alloc is not entry['$alloc']:
-          self.oblige(s1, 'no-final-alloc[%s]' % name, self.no_finals_between(s1, entry['$alloc'], s1.alloc), fnode,
-                      "no instance of a 'final' class is created (allocates=True)")
+        elif spec.allocates and spec.allocates != 'any' and s1.maybe_final:
+          # decided syntactically: 'final' objects are created only by constructor calls in
+          # repository code, or by callees declared allocates='any'
+          self.oblige(s1, 'no-final-alloc[%s]' % name, z3.BoolVal(False), fnode,
+                      "no instance of a 'final' class is created on this path (allocates=True)")
       elif kind == 'exc':
         exc = val
         allowed = None
